@@ -1105,3 +1105,6 @@ RULE += upstream.RULE
 from pv import fluent  # noqa: E402
 SUBS.append(fluent.sub(ID))
 RULE += fluent.RULE
+
+# cases at scale (see pv/scale.py)
+RULE += scale.RULE
